@@ -56,8 +56,24 @@ func vstubClear(s *streams.IDGenerator, id int) bool {
 		if _, still := vConn.calls[id]; still {
 			vClearOK = false
 		}
+		// from here on the id is free: another request may reserve it and register under it at once
+		if vConn.calls != nil && vBool("released_id_is_reused_at_once") {
+			vReusedBy = &callReq{streamID: id, resp: make(chan callResp), timeout: make(chan struct{})}
+			vConn.calls[id] = vReusedBy
+		}
 	}
 	return true
+}
+
+// the request that took over an id the moment it was released (nil: nobody did)
+var vReusedBy *callReq
+
+// whatever the code under analysis did after releasing an id, it left the next user's registration alone
+func vReuseIntact() bool {
+	if vReusedBy == nil || vConn.closed || vConn.calls == nil {
+		return true
+	}
+	return vConn.calls[vReusedBy.streamID] == vReusedBy
 }
 
 // the environment step at every lock acquisition: the closer may have run meanwhile
@@ -161,6 +177,7 @@ func vNewConn() *Conn {
 	c.cancel = func() {}
 	vConn = c
 	vStreamID, vGotStream, vClears, vClearOK, vCall, vWriteCalls, vRegistered, vHandled = 0, false, nil, true, nil, 0, false, nil
+	vReusedBy = nil
 	return c
 }
 
@@ -233,6 +250,7 @@ func vh_exec() {
 	vAssert((f != nil) != (err != nil), "C06/exec/exactly-one-outcome")
 	vAssert(vClearOK, "C01/exec/stream-released-only-after-the-call-is-unregistered")
 	vAssert(len(vClears) <= 1, "C06/exec/stream-released-at-most-once")
+	vAssert(vReuseIntact(), "C01/exec/a-released-id-belongs-to-its-next-user")
 	for _, id := range vClears {
 		vAssert(id == vStreamID && vGotStream, "C01/exec/only-its-own-stream-is-released")
 	}
@@ -387,6 +405,7 @@ func vh_recv() {
 		vAssert(id == s && s == k1 && vIsClosed(c1.timeout) && sent1 == 0, "C01/recv/releases-only-the-abandoned-call-of-that-stream")
 	}
 	vAssert(len(vClears) <= 1, "C06/recv/releases-at-most-once")
+	vAssert(vReuseIntact(), "C01/recv/a-released-id-belongs-to-its-next-user")
 	// C06: the response for call 1 was received completely (header and body) and its caller had given up
 	// (before the header, or while the body was read): nobody else will release the id, recv must
 	if !wasClosed && vHeadErr == nil && s == k1 && err == nil && vBodyResult == 0 && sent1 == 0 && vIsClosed(c1.timeout) && ctx.err == nil {
@@ -395,8 +414,8 @@ func vh_recv() {
 	if !wasClosed && vHeadErr == nil && s > 0 && s <= n {
 		// the addressed entry is removed, the other one stays
 		if s == k1 {
-			_, still := c.calls[k1]
-			vAssert(!still, "C01/recv/delivered-call-is-unregistered-first")
+			now, still := c.calls[k1]
+			vAssert(!still || (vReusedBy != nil && now == vReusedBy), "C01/recv/delivered-call-is-unregistered-first")
 			if _, had2 := c.calls[k2]; had2 {
 				vAssert(c.calls[k2] == c2, "C01/recv/other-calls-untouched")
 			}
